@@ -25,12 +25,115 @@ pub struct Scenario {
     /// `drop_caches`: also remove the whole rebuildable cache directory first.
     pub restart: Option<bool>,
     pub phase2: Vec<Vec<Op>>,
+    /// whole-engine variant: sessions and background tasks (several concurrent emitters per task
+    /// stream) on the real router, with seeded holds at the emitter scheduling points
+    #[serde(default)]
+    pub engine: Option<EngineSc>,
+}
+
+#[derive(Clone, Debug, Serialize, Deserialize, PartialEq)]
+pub struct EngineSc {
+    pub commands: Vec<String>,
+    pub tool_posts: u8,
+    pub plan: crate::esim::gates::Plan,
+    pub workers: u8,
 }
 
 pub struct C01;
 
+fn generate_engine(rng: &mut Rng) -> EngineSc {
+    use crate::esim::gates::{HoldRule, Plan, Release};
+    let n = rng.range(1, 3);
+    let commands = (0..n)
+        .map(|_| match rng.below(3) {
+            0 => "for i in 1 2 3 4 5 6 7 8; do echo o$i; echo e$i 1>&2; done".to_string(),
+            1 => "echo a; echo b 1>&2; echo c; echo d 1>&2; exit 2".to_string(),
+            _ => "for i in 1 2 3 4 5 6; do echo o$i; sleep 0.002; echo e$i 1>&2; done".to_string(),
+        })
+        .collect();
+    let mut rules = Vec::new();
+    if rng.chance(2, 3) {
+        rules.push(HoldRule { point: if rng.chance(1, 2) { "task_emit:before_record".into() } else { "task_emit:between_record_and_publish".into() }, nth: rng.below(12), release: Release::AfterMs(rng.range(5, 40)) });
+    }
+    if rng.chance(1, 3) {
+        rules.push(HoldRule { point: "session_emit:before_record".into(), nth: rng.below(10), release: Release::AfterMs(rng.range(5, 30)) });
+    }
+    EngineSc { commands, tool_posts: rng.below(3) as u8, plan: Plan { rules, random: Some((rng.next_u64(), 1, rng.range(2, 5), rng.range(1, 10))) }, workers: if rng.chance(1, 2) { 3 } else { 0 } }
+}
+
+fn execute_engine(e: &EngineSc, env: &Env) -> Executed {
+    use crate::esim::{self, gates, Engine, ProviderCfg};
+    let mut stats = RunStats::default();
+    stats.bump("engine_scenarios", 1);
+    let done = |outcome: Outcome, stats: RunStats| Executed { outcome, stats, schedules: Vec::new() };
+    esim::WORKER_THREADS.store(e.workers as usize, std::sync::atomic::Ordering::SeqCst);
+    let engine = Engine::new(&env.root.join("e"), &ProviderCfg::default(), vec![], false);
+    esim::WORKER_THREADS.store(0, std::sync::atomic::Ordering::SeqCst);
+    let engine = match engine {
+        Ok(x) => x,
+        Err(err) => return done(Outcome::Harness(err), stats),
+    };
+    gates::install(e.plan.clone());
+    let res: Result<(), String> = (|| {
+        let (_, v) = engine.call_json("POST", "/threads/ensure", None)?;
+        let tid = v["thread_id"].as_str().unwrap_or("").to_string();
+        let mut tasks = Vec::new();
+        let mut runs = Vec::new();
+        for c in &e.commands {
+            let (st, v) = engine.call_json("POST", "/tasks", Some(json!({"tool": "bash", "args": {"command": c}})))?;
+            if st != 201 {
+                return Err(format!("create task: {st}"));
+            }
+            tasks.push(v["task_id"].as_str().unwrap_or("").to_string());
+        }
+        for k in 0..e.tool_posts {
+            let (st, v) = engine.call_json("POST", &format!("/threads/{tid}/messages"), Some(json!({"content": json!({"tool": "bash", "args": {"command": format!("echo p{k}; echo q{k} 1>&2")}}).to_string()})))?;
+            if st != 202 {
+                return Err(format!("post: {st}"));
+            }
+            runs.push(v["session_id"].as_str().unwrap_or("").to_string());
+        }
+        let log = engine.data.join("events.jsonl");
+        engine.wait_until(std::time::Duration::from_secs(40), |t| {
+            tasks.iter().all(|id| t.frames.iter().any(|f| f.stream_id == *id && f.ty == "tool_task_status" && matches!(f.s("status"), Some("exited") | Some("failed") | Some("cancelled"))))
+                && runs.iter().all(|s| t.frames.iter().any(|f| f.ty == "continuity_run_ended" && f.s("run_session_id") == Some(s.as_str())))
+        })?;
+        let _ = log;
+        Ok(())
+    })();
+    gates::release_all();
+    engine.settle(10);
+    let (_, holds) = gates::uninstall();
+    for (k, v) in holds {
+        stats.bump(&format!("fault:task_held_at:{k}"), v);
+    }
+    let truth_path = engine.data.join("events.jsonl");
+    let truth = model::parse_truth_file(&truth_path);
+    drop(engine);
+    if let Err(err) = res {
+        return done(Outcome::Harness(err), stats);
+    }
+    let truth = match truth {
+        Ok(t) => t,
+        Err(err) => return done(Outcome::Violation(Violation { class: "truth_unparseable".into(), signature: "truth_unparseable:engine".into(), detail: format!("line {}: {}", err.line_no, err.reason) }), stats),
+    };
+    stats.bump("frames_in_truth", truth.frames.len() as u64);
+    stats.nontrivial = truth.frames.len() > 10;
+    stats.case_hash = crate::prng::fnv1a(serde_json::to_string(e).unwrap_or_default().as_bytes());
+    if let Some(v) = truth.first_order_violation() {
+        let kind = if v.got < v.expected { "duplicate_or_reordered_seq" } else { "gap_or_reordered_seq" };
+        return done(Outcome::Violation(Violation { class: kind.into(), signature: format!("{kind}:{}:engine", v.stream_kind), detail: format!("stream {}/{} line {}: expected seq {}, got {} (frame type {}, previous {:?})", v.stream_kind, v.stream_id, v.line_no, v.expected, v.got, v.ty, v.prev_ty) }), stats);
+    }
+    done(Outcome::Ok, stats)
+}
+
 pub fn generate(run_seed: u64, tier: Tier) -> Scenario {
     let mut rng = Rng::derive(run_seed, "ops");
+    if Rng::derive(run_seed, "kind").chance(1, 60) {
+        let mut erng = Rng::derive(run_seed, "engine");
+        let mut srng = Rng::derive(run_seed, "sched-spec");
+        return Scenario { sim_seed: 1, clock_quantum_us: 1000, sched: SchedSpec::generate(&mut srng, 10), setup: vec![], phase1: vec![], restart: None, phase2: vec![], engine: Some(generate_engine(&mut erng)) };
+    }
     let n_actors = rng.range(2, if tier == Tier::Quick { 4 } else { 6 }) as usize;
     let ops_total = rng.range(5, if tier == Tier::Quick { 30 } else { 60 }) as usize;
     let mut setup = vec![Op::EnsureDefault];
@@ -66,6 +169,7 @@ pub fn generate(run_seed: u64, tier: Tier) -> Scenario {
         phase1,
         restart,
         phase2,
+        engine: None,
     }
 }
 
@@ -76,6 +180,9 @@ pub struct Executed {
 }
 
 pub fn execute(sc: &Scenario, env: &Env) -> Executed {
+    if let Some(e) = &sc.engine {
+        return execute_engine(e, env);
+    }
     let mut stats = RunStats::default();
     let dirs = storesim::begin_run(&env.root, sc.sim_seed, sc.clock_quantum_us * 1000);
     let world = Arc::new(World::new(dirs.clone()));
@@ -307,13 +414,16 @@ impl Check for C01 {
         sc.sched.schedules = Some(ex.schedules);
         serde_json::to_value(sc).unwrap()
     }
+    fn attempts(&self) -> u32 {
+        3
+    }
     fn rule(&self) -> String {
         "one evaluation = one seeded run: 2-6 actor threads execute generated operation lists (message/run/side-effect/compile/cursor/checkpoint/auto/schedule/branch/handoff/raw-session appends plus read-only noise) against one real ContinuityStore+EventLog under the baton scheduler, optionally followed by a clean authority restart and a second concurrent phase; distinct = distinct hash of the (actor, point-class) schedule trace; non-trivial = at least 2 context switches and at least one preemption of an actor inside a store critical section".into()
     }
     fn assumptions(&self) -> Vec<String> {
         vec![
             "scheduling points are mutating fs effects, opens, shim-mutex operations; code between two points is atomic in the simulation".into(),
-            "session and task seq threading is exercised by whole-engine runs (C07/C16/C17), here only raw session frames share the log".into(),
+            "1 in 60 scenarios is a whole-engine run (real router, session and task emitters with 2-3 concurrent producers per task stream, seeded holds at the emitter scheduling points, current-thread or 3-worker runtime, real time); the rest share the log with raw session frames only".into(),
             "restarts in this check are clean (no crash); crash states are C05".into(),
         ]
     }
